@@ -369,6 +369,8 @@ def _serve(directory):
                 elif k == "ignore-range":
                     data, status = whole, 200
                 self.send_response(status)
+                if status == 206:
+                    self.send_header("Content-Range", f"bytes {int(a)}-{int(a) + len(data) - 1}/{len(whole)}")
             else:
                 self.send_response(200)
             self.send_header("Content-Length", str(len(data)))
